@@ -844,6 +844,11 @@ pub fn gen(r: &mut Rng, pool: &Pool, opts: &GenOpts) -> Program {
                 Node::Macro(vec![format!(".macro d{}l", pool.tag), format!("dl{}:", pool.tag), "    nop".to_string(), format!("dl{}:", pool.tag), "    ret".to_string(), ".endm".to_string()]),
                 Node::Lines(vec![format!("    d{}l", pool.tag)]),
             ],
+            "panics-today" => vec![Node::Lines(vec![match g.r.below(3) {
+                0 => format!("    ldi r{}, 1", 32 + g.r.below(68)),
+                1 => format!(".equ big{} = 9999999999999999999{}", pool.tag, g.r.below(100000)),
+                _ => format!("    ldi r{}", 16 + g.r.below(16)),
+            }])],
             "error-in-macro" => vec![
                 Node::Macro(vec![format!(".macro e{}rr", pool.tag), "    nop".to_string(), format!(".error \"{}in macro\"", opts.msg_tag), ".endm".to_string()]),
                 Node::Lines(vec![format!("    e{}rr", pool.tag)]),
@@ -888,6 +893,12 @@ pub fn family(r: &mut Rng, n: usize, msg_prefix: &str) -> Vec<Program> {
         o.max_blocks = 16;
         if r.chance(9, 20) {
             o.fail = Some(FAIL_KINDS[r.usize(FAIL_KINDS.len())].to_string());
+            // now and then an input on which today's code panics (a register number out of range,
+            // a number above 64 bits, a missing operand): whatever the build does with it alone,
+            // it does in any history and next to any other build
+            if r.chance(1, 10) {
+                o.fail = Some("panics-today".to_string());
+            }
         }
         o.macro_heavy = r.chance(1, 6);
         v.push(gen(r, &pool, &o));
